@@ -463,10 +463,22 @@ def coulomb_formula(repo, fname, normalized, alg):
                     raise e8.Undecided(f"ufunc call `{norm(s)[:60]}`")
                 if isinstance(s, ast.Return) and s.value is not None:
                     return self.ev2(s.value)
+                if isinstance(s, ast.Expr) and isinstance(s.value, ast.Call) and isinstance(s.value.func, ast.Name) and \
+                        s.value.func.id in helpers and s.value.func.id != fname:
+                    # a helper called for its effect on an array argument (`_erf_over_r(r, sqrt_alpha, out=out)`): the arrays
+                    # the helper stores into are the caller's arrays
+                    h = helpers[s.value.func.id]
+                    argn = list(zip(h.params, s.value.args)) + [(k.arg, k.value) for k in s.value.keywords]
+                    fr2 = call_helper(h, [self.ev2(a_) for a_ in s.value.args], {k.arg: self.ev2(k.value) for k in s.value.keywords},
+                                      self, want_frame=True)
+                    for p_, a_ in argn:
+                        if isinstance(a_, ast.Name) and p_ in fr2.env:
+                            self.env[a_.id] = fr2.env[p_]
+                    continue
                 raise e8.Undecided(f"statement `{norm(s)[:60]}`")
             return None
 
-    def call_helper(h, args, kw, caller):
+    def call_helper(h, args, kw, caller, want_frame=False):
         hp = h.params
         env = {}
         rvar = set()
@@ -480,6 +492,8 @@ def coulomb_formula(repo, fname, normalized, alg):
                 rvar.add(k_)
         fr = Frame(env, {}, rvar)
         r_ = fr.block(strip_docstring(h.node.body))
+        if want_frame:
+            return fr
         if r_ is None:
             raise e8.Undecided(f"helper {h.name} returns nothing")
         return r_
